@@ -113,7 +113,8 @@ def run(rep, tier, seed, model_ok=True, effort=1):
             cfgv = r.choice(vers)
         cases.append((pat, flags, cfgv, r.choice(["default", "default", "global", "branch"]), tags_all, tags_branch, r.random() < 0.15))
     for pat, flags, cfgv, scope, tags_all, tags_branch, ignore in cases:
-        prj = project.TempProject(pat, cfgv, files={}, commit=True, tag=True, push=False, tag_scope=scope, vcs="fakegit",
+        # every fourth project is laid out like a linked worktree or a submodule: .git is a file, not a directory
+        prj = project.TempProject(pat, cfgv, files={}, commit=True, tag=True, push=False, tag_scope=scope, vcs="fakegit", git_file=(len(pat + cfgv + scope) + len(tags_all)) % 4 == 0,
                                   vcs_cfg=dict(tags=tags_all, tags_branch=tags_branch, status="", remote=None))
         with prj:
             if prj.cfg_error(impl):
